@@ -987,7 +987,7 @@ impl<'a> Runner<'a> {
     let aborted = res.abort.is_some();
     // A checker that is inconsistent although nothing changed (zero-sized-stamp kinds: volatile, bound exceeded) makes its
     // owner run in every build: "executes nothing when nothing changed" is not a statement about such programs.
-    fn has_zst(ops: &[Op]) -> bool { ops.iter().any(|o| match o { Op::Read { chk, .. } => chk.is_zst(), Op::If { then, els, .. } => has_zst(then) || has_zst(els), Op::Switch { cases, .. } => cases.iter().any(|c| has_zst(c)), _ => false }) }
+    fn has_zst(ops: &[Op]) -> bool { ops.iter().any(|o| match o { Op::Read { chk, .. } => chk.is_zst(), Op::Require { chk, .. } => chk.is_zst(), Op::If { then, els, .. } => has_zst(then) || has_zst(els), Op::Switch { cases, .. } => cases.iter().any(|c| has_zst(c)), _ => false }) }
     let zst_program = prog.tasks.iter().any(|t| has_zst(&t.ops));
     let is_repeat = is_repeat && !zst_program;
     let probe_after_bu = matches!(kind, SessionKind::TopDown(_)) && self.last_bu_complete && self.changed.is_empty() && fault_free && !zst_program;
@@ -1316,7 +1316,7 @@ impl<'a> Runner<'a> {
           let Some((t, n, _)) = info.owner else { continue; };
           // Verdict truth for output checkers (documented relation).
           if let (true, Some(now), Some(stamped), Ev::OCheck { chk, incons, .. }) = (is_out, out_now, info.out, ev) {
-            let expected = chk.observe(&now) != chk.observe(&stamped);
+            let expected = if chk.is_zst() { chk.zst_inconsistent(&now) } else { chk.observe(&now) != chk.observe(&stamped) };
             if expected != *incons {
               v(&["C09"], "output-checker-relation", format!("output checker {:?} answered inconsistent={incons} for stamped {:?} vs current {:?}", chk, stamped, now));
             }
